@@ -217,6 +217,7 @@ def run_unit(unit, tier="quick", want_canary=True):
         cgen = os.path.join(BUILD, f"{unit}_canary.rs")
         open(cgen, "w").write(ctext)
         res.gen_path = gen
+        res.own_iter = (meta or {}).get("own_iter", ())
         res.fns = fns
         res.trusted = scan_trusted(text)
         extra = []
@@ -336,6 +337,29 @@ def run_unit(unit, tier="quick", want_canary=True):
     return res
 
 
+WEAK_ADAPTORS = {"any", "all", "find", "find_map", "position", "rposition", "map", "filter", "filter_map", "flat_map", "flatten", "fold", "for_each",
+                 "max", "min", "max_by_key", "min_by_key", "max_by", "min_by", "sum", "product", "count", "zip", "chain", "rev", "skip", "take_while",
+                 "skip_while", "cloned", "copied", "enumerate", "last", "nth", "unzip", "partition", "reduce", "inspect", "scan", "step_by", "peekable",
+                 "cmp", "eq", "lt", "le", "is_sorted"}
+
+
+def weak_std_calls(r, f):
+    """names of std iterator adaptors (first call after .iter() / .into_iter() / .values() …) that appear in the REAL part of the
+    spliced body of f; methods the unit's own stand-in iterators provide are listed by the unit (//@UNIT own_iter=find,…)"""
+    try:
+        lines = open(r.gen_path).read().split("\n")
+        a, b = f.body_lines
+        body = "\n".join(lines[a - 1:b])
+    except Exception:
+        return []
+    own = set(getattr(r, "own_iter", ()) or ())
+    out = []
+    for m in re.finditer(r"\.\s*(?:iter|into_iter|iter_mut|values|keys|values_mut|chars|bytes|into_par_iter|par_iter|drain)\s*\(\s*\)\s*\.\s*(\w+)\s*\(", body):
+        if m.group(1) in WEAK_ADAPTORS and m.group(1) not in own and m.group(1) not in out:
+            out.append(m.group(1))
+    return out
+
+
 def units_for(prop):
     out = []
     for tmpl in sorted(glob.glob(os.path.join(VERIF, "units", "*", "unit.rs.tmpl"))):
@@ -439,6 +463,13 @@ def main():
             elif errs and f.lost_hints:
                 undecided.append(f"{oid}: proof hint anchor lost ({f.lost_hints[0]}) and the proof does not go through without it: {errs[0]['msg']}")
                 rec["status"] = "undecided"
+            elif errs and weak_std_calls(r, f):
+                # the installed Verus ACCEPTS some std iterator adaptors (any, all, map, position, …) but knows nothing about their
+                # results; a body that reaches its result through one of them cannot be judged: a failed obligation may be the
+                # verifier's limit, not the code's fault (e.g. a harmless rewrite of a loop into `.iter().any(..)`)
+                wk = weak_std_calls(r, f)
+                undecided.append(f"{oid}: the body uses std iterator adaptor(s) the verifier has no usable specification for ({', '.join(wk[:4])}); failed: {errs[0]['msg']}")
+                rec["status"] = "undecided (unspecified std iterator adaptors)"
             elif errs:
                 violations.append((oid, errs, r))
                 rec["status"] = "FAILED"
